@@ -463,6 +463,20 @@ func c16CfgString(cfg *formatter.Config) string {
 // c16Judge runs the real formatter on src under cfg and applies the oracle.
 // an (may be nil) is the cached analysis of src.
 func c16Judge(src []byte, cfg *formatter.Config, viaFile bool, an **c16Analysis) c16Verdict {
+	return c16JudgeVia(src, cfg, viaFile, an, false)
+}
+
+// c16JudgeVia: with window=false "the reader" is the strict reader over a
+// scanner sized to the text (cheap; for texts whose lexemes are far below the
+// scanner window it accepts exactly what every reader of the repository
+// accepts, and a disagreement with the sliding-window reader makes the case
+// inconclusive).  With window=true (c16_window.go: lexemes near and beyond the
+// window) "the reader" is the one the runtime, `elps run`, lint, lsp and the
+// minifier read through - rdparser.New over token.NewScanner's fixed
+// token.DefaultBufSize sliding window - for the input AND for the formatted
+// output: what that reader rejects, Format must reject; what it accepts,
+// Format must accept and return text that it reads back to the same trees.
+func c16JudgeVia(src []byte, cfg *formatter.Config, viaFile bool, an **c16Analysis, window bool) c16Verdict {
 	mode := c16ModeOf(cfg)
 	v := c16Verdict{}
 	fail := func(family, keyTail, summary, detail string) c16Verdict {
@@ -480,7 +494,7 @@ func c16Judge(src []byte, cfg *formatter.Config, viaFile bool, an **c16Analysis)
 
 	if *an == nil {
 		a := &c16Analysis{}
-		strict, serr := c16Strict(src)
+		strict, serr := c16StrictVia(src, window)
 		if serr != nil {
 			a.Rejected = true
 			a.RejectErr = serr.Error()
@@ -499,7 +513,7 @@ func c16Judge(src []byte, cfg *formatter.Config, viaFile bool, an **c16Analysis)
 	a := *an
 
 	// ---- rejected input: an error and no output
-	if a.Rejected != (ferr != nil) {
+	if !window && a.Rejected != (ferr != nil) {
 		// before raising either accept/reject alarm, re-read exactly the way Format reads
 		strict, serr := c16StrictVia(src, true)
 		if (serr != nil) != a.Rejected {
@@ -550,7 +564,7 @@ func c16Judge(src []byte, cfg *formatter.Config, viaFile bool, an **c16Analysis)
 	}
 
 	// 1. output must read back
-	outStrict, oerr := c16Strict(out)
+	outStrict, oerr := c16StrictVia(out, window)
 	if oerr != nil {
 		return fail("output-unreadable", c16ErrClass(oerr), "the strict reader rejects the formatted output: "+oerr.Error(), "")
 	}
